@@ -1,0 +1,24 @@
+//go:build verif
+
+package apifu
+
+import "github.com/ccbrown/api-fu/graphql"
+
+// VerifAsyncTrace, when non-nil, is called at the trace points of the asynchronous resolution
+// helpers (build tag `verif` only; see /verif, property C15):
+//
+//	"go"       Go created the promise (called on the goroutine that calls Go)
+//	"chain"    chain is about to start its task for the given promise; "join" likewise for its promises
+//	"recv"     the idle handler's blocking receive took the resolution destined for the promise
+//	"drain"    the idle handler's non-blocking receive did
+//	"released" a task whose execution had returned is about to put its result into its own
+//	           promise (called on the task's goroutine)
+//
+// It must be set before requests are served and must be safe for concurrent use.
+var VerifAsyncTrace func(event string, promises ...graphql.ResolvePromise)
+
+func verifAsync(event string, promises ...graphql.ResolvePromise) {
+	if f := VerifAsyncTrace; f != nil {
+		f(event, promises...)
+	}
+}
